@@ -154,6 +154,46 @@ Theorem C06_listener_isolation : forall h,
 Proof. exact lsn_ok_split. Qed.
 Print Assumptions C06_listener_isolation.
 
+(* the clause the slow-link histories add to the listener-level oracle (kind lsn.slowlink):
+   "the recorded transmit time is the kernel transmit timestamp once it has been read".  If
+   every transmit-timestamp report carries a time not earlier than the software transmit
+   time of the exchange it is reported for (monotone time: the kernel transmits a reply after
+   the listener has stamped it), then an interleaved reply never serves a transmit stamp
+   earlier than the software transmit time of the exchange it names - the time that very
+   reply carried (r_ref; its transmit field when it was a basic reply).  The real listeners
+   violated this behind a slow link: a stamp that arrived late was later taken for the
+   stamp of the NEXT reply of that socket (D-C06b). *)
+Theorem C06_served_tx_after_software_tx : forall k c s log cid q rxt now victim out,
+  0 < icap c -> 0 <= cap c -> reachable k c s log -> reports_after_software log ->
+  in_era k rxt -> in_era k (rxt + icap c + 1) -> in_era k now ->
+  handle c s cid q rxt now victim = Some out ->
+  r_inter (o_reply out) = true ->
+  exists q0 r0, In (EvReply cid q0 r0) log /\ r_rx r0 = q_org q /\ r_ref r0 <= r_tx (o_reply out).
+Proof.
+  intros k c s log cid q rxt now victim out Hi Hc Hr Hrep E1 E2 E3 Hh Hint.
+  destruct (reachable_inv k c Hi s log Hc Hr) as [HI HP].
+  exact (served_tx_after_software_tx k c Hi s log cid q rxt now victim out HI HP Hrep E1 E2 E3 Hh Hint).
+Qed.
+Print Assumptions C06_served_tx_after_software_tx.
+
+(* the hypothesis is satisfiable: the history of C06_nonvacuous (a report 10 ns after the software time) *)
+Example C06_reports_after_software_nonvacuous :
+  let t := 1717171717000000000 in
+  let ops := [OpHandle 1 {| q_org := 0; q_rx := 5; q_tx := 6 |} t (t + 10) 0;
+              OpUpdateTx 1 t (t + 20);
+              OpHandle 1 {| q_org := to64 t; q_rx := 7; q_tx := 8 |} (t + 100) (t + 110) 0] in
+  exists s log, run_log real_config tss_empty [] ops = Some (s, log) /\ reports_after_software log.
+Proof.
+  cbv zeta. eexists. eexists. split; [vm_compute; reflexivity|].
+  intros cid rx tx q0 r0 Htx Hrep Hrx. cbn [In] in Htx, Hrep.
+  destruct Htx as [Htx|[Htx|[Htx|[]]]]; try discriminate Htx.
+  injection Htx as Ec Erx Etx. rewrite <- Etx. rewrite <- Erx in Hrx. clear Ec Erx Etx.
+  destruct Hrep as [Hrep|[Hrep|[Hrep|[]]]]; try discriminate Hrep;
+    injection Hrep as _ _ Er; rewrite <- Er in Hrx |- *; cbn [r_rx r_ref] in *.
+  - vm_compute in Hrx. discriminate Hrx.
+  - intro Hgt. vm_compute in Hgt. discriminate Hgt.
+Qed.
+
 (* the listener-level oracle is not trivially true: client 2 naming the receive stamp of a reply
    to client 1 and being served interleaved is rejected; the same request from client 1 is accepted *)
 Example C06_listener_oracle_rejects_cross_client :
